@@ -64,9 +64,9 @@ Definition ex_render (b : nat) (cbs : list nat) : list Z :=
   map bits_of_f32 (snd (run_callbacks kira32 2 (conc_renderer kira32 b (ex_dt, b) ex_scene) cbs)).
 
 (** the hypotheses under which the adapters are the code hold of this scene: both sounds exist,
-    play, have a fixed rate (as every sound made by [StaticSound::new]); every effect state is
-    well-formed *)
-Lemma ex_new_steady d s : ex_new d = Some s -> rate_steady (frame f32) s.
+    play, have a fixed rate (as every sound made by [ex_new], i.e. by [StaticSound::new]); every
+    effect state is well-formed *)
+Example ex_new_steady d s : ex_new d = Some s -> rate_steady (frame f32) s.
 Proof.
   unfold ex_new. intros H.
   destruct (C04.StaticSound.sound_new (frame f32) (Z32 0, Z32 0) ex_fuel d) as [s0| |] eqn:E; try discriminate H.
@@ -77,11 +77,9 @@ Example ex_scene_ok :
    | Some s1, Some s2 => negb (C04.StaticSound.s_stopped s1) && negb (C04.StaticSound.s_stopped s2)
    | _, _ => false
    end = true) /\
-  (forall s, ex_snd1 = Some s \/ ex_snd2 = Some s -> rate_steady (frame f32) s) /\
   scene_wf consts_f32 ex_interp f64_to_f32 (Z32 1) ex_fuel ex_clamp ex_scene.
 Proof.
-  split; [vm_compute; reflexivity|]. split.
-  - intros s [H|H]; exact (ex_new_steady _ _ H).
+  split; [vm_compute; reflexivity|].
   - unfold scene_wf, ex_scene. cbn [sx_main sx_subs sx_sends sm_fx ss_fx snd track_wf].
     repeat match goal with
            | |- _ /\ _ => split
